@@ -683,13 +683,30 @@ fn test_components() {
     assert_eq!(set.get_components().len(), 2);
 }
 
+/// 计算单个词项的「与顺序无关」摘要
+/// * 🚩使用固定密钥的散列器：判等的词项必得相同摘要
+fn term_digest(term: &Term) -> u64 {
+    use std::hash::Hasher;
+    let mut hasher = std::collections::hash_map::DefaultHasher::new();
+    term.hash(&mut hasher);
+    hasher.finish()
+}
+
 /// 散列化「无序不重复词项容器」
-/// * ⚠️潜在假设：集合相同⇒遍历顺序相同⇒散列化顺序相同⇒散列化结果相同
+/// * 🚩集合的遍历顺序取决于其插入历史，故以「可交换」的方式（摘要之和）合并各元素
+///   * ✅判等的集合（无论元素以何种顺序加入）总有相同的散列
 fn hash_term_set<H: std::hash::Hasher>(set: &TermSetType, state: &mut H) {
-    // 逐个元素散列化
+    let mut sum: u64 = 0;
     for term in set {
-        term.hash(state)
+        sum = sum.wrapping_add(term_digest(term));
     }
+    state.write_usize(set.len());
+    state.write_u64(sum);
+}
+
+/// 散列化「对称陈述」的两个词项：与主谓顺序无关
+fn hash_term_pair_unordered<H: std::hash::Hasher>(t1: &Term, t2: &Term, state: &mut H) {
+    state.write_u64(term_digest(t1).wrapping_add(term_digest(t2)));
 }
 
 /// 实现/散列化逻辑
@@ -748,16 +765,17 @@ impl Hash for Term {
             ConjunctionParallel(set) => hash_term_set(set, state),
             // 陈述
             Inheritance(t1, t2)
-            | Similarity(t1, t2)
             | Implication(t1, t2)
-            | Equivalence(t1, t2)
             | ImplicationPredictive(t1, t2)
             | ImplicationConcurrent(t1, t2)
             | ImplicationRetrospective(t1, t2)
-            | EquivalencePredictive(t1, t2)
-            | EquivalenceConcurrent(t1, t2) => {
+            | EquivalencePredictive(t1, t2) => {
                 t1.hash(state);
                 t2.hash(state);
+            }
+            // 对称陈述：判等时不分主谓顺序，散列亦然
+            Similarity(t1, t2) | Equivalence(t1, t2) | EquivalenceConcurrent(t1, t2) => {
+                hash_term_pair_unordered(t1, t2, state)
             }
         }
     }
